@@ -461,8 +461,9 @@ func valueAtoms(v ssa.Value, pol bool) []atom {
 }
 
 type atomExpander struct {
-	out  []atom
-	seen map[ssa.Value]bool
+	out   []atom
+	seen  map[ssa.Value]bool
+	depth int
 }
 
 func (ex *atomExpander) add(v ssa.Value, pol bool) {
@@ -475,6 +476,66 @@ func (ex *atomExpander) add(v ssa.Value, pol bool) {
 	}
 	ex.seen[v] = true
 	ex.out = append(ex.out, atom{v, pol})
+	// a boolean handed back by a helper of the repository: what is known on every path of the helper that returns
+	// this value (`if n, ok := x.pending(); ok` - the caller's else-branch knows what made pending say no)
+	if ex.depth < 2 {
+		var call *ssa.Call
+		idx := 0
+		switch x := v.(type) {
+		case *ssa.Extract:
+			call, _ = x.Tuple.(*ssa.Call)
+			idx = x.Index
+		case *ssa.Call:
+			call = x
+		}
+		if call != nil {
+			if g := staticCallee(call); g != nil && inRepo(g) && len(g.Blocks) > 0 && idx < g.Signature.Results().Len() {
+				if b, ok := g.Signature.Results().At(idx).Type().Underlying().(*types.Basic); ok && b.Kind() == types.Bool {
+					var sets [][]atom
+					open := false
+					allInstrs(g, func(in ssa.Instruction) {
+						ret, ok := in.(*ssa.Return)
+						if !ok || idx >= len(ret.Results) {
+							return
+						}
+						c, isC := ret.Results[idx].(*ssa.Const)
+						if !isC || c.Value == nil {
+							open = true // a computed value: nothing can be said
+							return
+						}
+						if (c.Value.String() == "true") == pol {
+							sub := &atomExpander{seen: map[ssa.Value]bool{}, depth: ex.depth + 1}
+							for _, gd := range guardsOf(ret.Block()) {
+								sub.add(gd.Cond, gd.Pol)
+							}
+							sets = append(sets, sub.out)
+						}
+					})
+					if !open && len(sets) > 0 {
+						// what all those paths agree on
+						for _, a := range sets[0] {
+							all := true
+							for _, other := range sets[1:] {
+								found := false
+								for _, b := range other {
+									if b.V == a.V && b.Pol == a.Pol {
+										found = true
+									}
+								}
+								if !found {
+									all = false
+								}
+							}
+							if all && !ex.seen[a.V] {
+								ex.seen[a.V] = true
+								ex.out = append(ex.out, a)
+							}
+						}
+					}
+				}
+			}
+		}
+	}
 	if phi, ok := v.(*ssa.Phi); ok {
 		// a && b  ==> phi [false, b] ; a || b ==> phi [true, b]
 		var nonConst []ssa.Value
